@@ -5,10 +5,11 @@ PROP = dict(
     lean_module="AbraProofs.Properties.C20",
     required_theorems=["C20_let_rejected", "C20_var_accepted", "C20_other_forms", "C20_store_takes_effect",
                        "C20_capture_rejected", "C20_assign_total", "C20_table",
-                       "C20_assign_total_old_counterexample", "C20_old_crash_iff", "C20_old_agrees"],
+                       "C20_assign_total_old_counterexample", "C20_old_crash_iff", "C20_old_agrees", "C20_pat_mutability"],
     harness_bin="c20",
     mismatch_is_violation=True,
-    rule="the full table: 32 binding forms (let, var, destructured let/var, for variable plain/destructured, match binding plain/"
+    rule="the full table: 40 binding forms (let, var, destructured let/var, let/var patterns with a variant payload / named variant "
+         "fields / a struct pattern / an (annotated) or-pattern, for variable plain/destructured, match binding plain/"
          "variant payload, function parameter, lambda parameter, array element of a let array / of a var array / nested, struct "
          "field plain / nested / of an array element, function name; captured let / var / destructured var / for / match / "
          "function parameter / lambda parameter assigned inside a lambda, a nested lambda or a task; a nested lambda's own local; "
